@@ -260,6 +260,10 @@ func (w *World) k5Possible(m *RepoModel, d string) bool {
 // k5Entry: the part of K5 that only a DELETE sees - the child entry of a manifest deleted by digest comes back at a
 // reload while a stored index lists it, whether or not its bytes are still stored (reads answer 404 without the
 // bytes, the delete finds the entry and answers 202).
+// K5Entry reports whether a manifest of repo is in the K5 situation as far as its index entry goes (deleted by digest,
+// a stored index still lists it): once its bytes are stored again - by a re-push - a reload serves it.
+func (w *World) K5Entry(repo, d string) bool { return w.k5Entry(w.Repos[repo], d) }
+
 func (w *World) k5Entry(m *RepoModel, d string) bool {
 	if !m.DelDig[d] || w.Kind == Mem {
 		return false
